@@ -56,7 +56,11 @@ def run(repo, rep, tier):
                       "once")
     rep.rule("R04.6", "binding constructs inside expressions have scope-"
                       "aware handlers in the name rewriter")
+    rep.rule("R04.7", "string: / import: helpers: the $name grammar, one "
+                      "parse+assign per ${...} occurrence, dotted-name "
+                      "resolution descends by getattr")
     _tables(repo, rep)
+    _string_and_import(repo, rep)
     _pipe(repo, rep)
     _lookup(repo, rep)
     _linear(repo, rep)
@@ -545,3 +549,133 @@ def _binders(repo, rep, rule="R04.6", handlers=True):
         rep.check(bool(pops) and bool(fin), rule, m.qualname,
                   "the scope is closed on every exit (try/finally)",
                   construct="scope-leak:" + b, where=L.where(m))
+
+
+def _string_and_import(repo, rep):
+    from .. import rx
+    C = rx.C
+    # (1) $name inside string: expressions -- a letter, then letters, digits
+    # and underscores
+    ic = repo.cls(COMP + "Interpolator")
+    rc = ic.attrs.get("braces_optional_regex")
+    try:
+        pat = repo.fold(rc, ic.module)
+    except Exception:
+        pat = None
+    patt = getattr(pat, "pattern", None)
+    ok = False
+    detail = str(patt)
+    if isinstance(patt, str):
+        tree = list(rx.parse(patt, getattr(pat, "flags", 0)))
+
+        def find(items):
+            for op, av in items:
+                if op is C.SUBPATTERN:
+                    gid = av[0]
+                    if gid is not None and _gname(patt, gid) == "variable":
+                        return list(av[3])
+                    r = find(av[3])
+                    if r:
+                        return r
+                elif op is C.BRANCH:
+                    for alt in av[1]:
+                        r = find(alt)
+                        if r:
+                            return r
+                elif op in (C.MAX_REPEAT, C.MIN_REPEAT):
+                    r = find(av[2])
+                    if r:
+                        return r
+            return None
+        var = find(tree)
+        if var and len(var) == 2 and var[0][0] is C.IN and \
+                var[1][0] in (C.MAX_REPEAT, C.MIN_REPEAT) and \
+                var[1][1][0] == 0 and list(var[1][1][2])[0][0] is C.IN:
+            head = rx.in_set(var[0][1])
+            tail = rx.in_set(list(var[1][1][2])[0][1])
+            letters = rx.CharSet.of("abcdefghijklmnopqrstuvwxyz"
+                                    "ABCDEFGHIJKLMNOPQRSTUVWXYZ")
+            ok = head == letters and tail == (
+                letters | rx.CharSet.of("0123456789_"))
+            detail = "head %s tail %s" % (head, tail)
+    rep.check(ok, "R04.7", ic.qualname + ".braces_optional_regex",
+              "a brace-less $name is a letter followed by letters, digits "
+              "and underscores ($first_name is one name, $_x is text)",
+              construct="variable-grammar", detail=detail[:200])
+    # (2) every ${...} occurrence with a non-empty expression is parsed and
+    # assigned -- no reuse of an earlier occurrence's result
+    f = repo.func(COMP + "Interpolator.__call__")
+    inner = [n for n in ast.walk(f.node) if isinstance(n, ast.While)
+             and src(n.test) == "True"]
+    okp = False
+    detail = "inner 'while True' loop not found"
+    if inner:
+        paths = P.enum_paths([inner[0]], unroll=1)
+        bad = None
+        n_parse = 0
+        for p in paths:
+            if p[-1][0] in ("raise",):
+                continue
+            if not any(e[0] == "cond" and e[3] is inner[0] for e in p):
+                continue    # zero iterations of 'while True'
+            if any(e[0] == "loop" and e[1] >= 1 and e[2] is inner[0]
+                   for e in p) and not any(
+                       e[0] == "except" for e in p):
+                # left by 'continue' without a failed parse: not in this code
+                pass
+            calls = [src(c) for c, _ in P.calls_on_path(p)]
+            parsed = any(c.startswith("engine.parse(") for c in calls)
+            assigned = any("assign_text(target)" in c for c in calls)
+            conds = [(src(e[1]), e[2]) for e in p if e[0] == "cond"]
+            empty = L.cond_holds(conds, "string", False)
+            failed = any(e[0] == "except" for e in p)
+            if parsed and assigned:
+                n_parse += 1
+            elif not (empty or failed):
+                bad = P.path_text(p, 14)
+        okp = bad is None and n_parse >= 1
+        detail = bad or ""
+    rep.check(okp, "R04.7", f.qualname, "every ${...} occurrence with a "
+              "non-empty expression is parsed and assigned on its own "
+              "(evaluated once per occurrence, never shared)",
+              construct="parse-per-occurrence", where=L.where(f),
+              detail=detail)
+    # (3) import: a.b.c -- the value is reached by getattr from the top
+    # package; __import__(dotted) itself returns the top package
+    g = repo.func("chameleon.utils._resolve_dotted")
+    loops = [n for n in g.node.body if isinstance(n, ast.For)]
+    okr = len(loops) == 1
+    detail = ""
+    if okr:
+        for n in ast.walk(loops[0]):
+            if isinstance(n, ast.Assign) and any(
+                    isinstance(t, ast.Name) and t.id == "found"
+                    for t in n.targets):
+                if not src(n.value).startswith("getattr(found, "):
+                    okr = False
+                    detail = src(n)
+        hs = [h for n in ast.walk(loops[0]) if isinstance(n, ast.Try)
+              for h in n.handlers]
+        okr = okr and len(hs) == 1 and any(
+            isinstance(x, ast.Call) and src(x.func) == "__import__"
+            for x in ast.walk(hs[0])) and any(
+                isinstance(x, ast.Assign) and
+                src(x.value).startswith("getattr(found, ")
+                for x in ast.walk(hs[0]))
+    rep.check(okr, "R04.7", g.qualname, "a dotted name is resolved by "
+              "getattr step by step; a missing sub-module is imported and "
+              "the step repeated (the result of __import__('a.b') is 'a', "
+              "never the value)", construct="dotted-descends",
+              where=L.where(g), detail=detail)
+
+
+def _gname(pattern, gid):
+    import re
+    try:
+        rx_ = re.compile(pattern)
+    except re.error:
+        return None
+    for k, v in rx_.groupindex.items():
+        if v == gid:
+            return k
+    return None
